@@ -10,3 +10,5 @@ pub mod io;
 pub mod library_factory;
 pub mod repl;
 pub mod values;
+#[cfg(ruschm_verif)]
+pub mod verif;
